@@ -21,7 +21,7 @@ func init() {
 		Run:      runC18,
 		Explanation: "Decides structural necessary conditions of 'modules initialise, start and stop in dependency order' in package modules: (R1) the wrapped service is started only after the loop over all start dependencies completed, each non-nil dependency is awaited and a failed dependency aborts the start; (R2) the wrapped service is stopped only after every dependant has been awaited; " +
 			"(R3) initFn runs only for modules not marked initialised and every non-error pass of the loop marks the module in the same map that guards the skip (exactly-once), over orderedDeps(name)+name; (R4) AddDependency appends only after the cycle check over every new dependency (error when the module is among the new dependency's transitive dependencies); (R5) failures propagate (run returns the service's FailureCase); " +
-			"(R6) the dependency queries (DependenciesForModule, inverseDependenciesForModule, orderedDeps, listDeps) read nothing but the registered modules' dependency lists, so they cannot be stale. (R7) orderedDeps places a module only after every entry of its dependency list tested as placed, and raises the placed flag only together with the placement: every prefix of the order is closed under dependencies (any other ordering algorithm is reported as undecided). Also: (R8) the await primitive the dependency check relies on answers nil ⇔ the service is in the awaited state when the waiter wakes up; (R9) the stop helper the wrapper relies on really waits: every return of StopAndAwaitTerminated comes after StopAsync and AwaitTerminated. NOT decided: termination/completeness of the ordering loop, timing, behaviour of the wrapped services themselves.",
+			"(R6) the dependency queries (DependenciesForModule, inverseDependenciesForModule, orderedDeps, listDeps) read nothing but the registered modules' dependency lists, so they cannot be stale. (R7) orderedDeps places a module only after every entry of its dependency list tested as placed, and raises the placed flag only together with the placement: every prefix of the order is closed under dependencies (any other ordering algorithm is reported as undecided). Also: (R8) the await primitive the dependency check relies on answers nil ⇔ the service is in the awaited state when the waiter wakes up; (R9) the stop helper the wrapper relies on really waits: every return of StopAndAwaitTerminated comes after StopAsync and AwaitTerminated. (R10) every module wrapper waits for the transitive dependencies (start) and dependants (stop) of the very module it wraps; listDeps recurses. NOT decided: termination/completeness of the ordering loop, timing, behaviour of the wrapped services themselves.",
 	}
 }
 
